@@ -8,7 +8,8 @@ PROPS["C13"] = dict(
          "schedules the next one, thousands of times with the arrival offset tracking the exit moment, and it also forces the order 'the last idle worker decides to leave, a Call "
          "arrives right behind it' through the package lock (FIFO hand-over of a starving sync.Mutex). Checked: every future that was not cancelled starts within 3 s of call-return + delay; when nothing is "
          "pending the package reaches zero worker goroutines within 3*idle + 5 s; a Call after that fires within 3 s. A generations unit schedules a first generation of 1..9000(20000) futures (due in 10 min and cancelled, or due at once and left to fire, or alternating), a second generation of 1..3000 futures due 30-150 ms ahead (part of it before the first cancel sweep), "
-         "and then cancels every handle of the first generation again 0-3 times (forward, reverse or shuffled): every future of the second generation is started exactly once, not early; the heap stays consistent. non-trivial = a near future "
+         "and then cancels every handle of the first generation again 0-3 times (forward, reverse or shuffled): every future of the second generation is started exactly once, not early; the heap stays consistent. In 'layered' cases the first generation is a heap of 3..127 futures, two thirds due in 10 min and one third within 150-400 ms; the far ones are cancelled one by one "
+         "and after every cancel the pending queue is checked to be a heap with consistent indexes (overlay accessor); the near ones must start on time. non-trivial = a near future "
          "was scheduled while only far ones were pending, or a burst exceeded the pool limit, or a Call hit a completely wound-down pool; "
          "distinct = hash of the case; classes max_lateness:* give the observed lateness histogram",
     assumptions=["'eventually' is decided as 'within 3 s' (healthy lateness measured here: p99 5 ms, max ~10 ms under load); a delay defect below 3 s is out of reach",
